@@ -64,7 +64,9 @@ SITES = {
     # "t3_trace": its gate (perf.metrics.enabled + t3.trace.enabled) consists of keys the validator rejects, so the
     # site is unreachable under validated configurations; exercised through emit_trace directly in run_t3_trace_case
     "cache_invalidate": {"cfg": {"t4": {"cache_bust_mode": "on-apply"}}, "idle_cfg": {"t4": {"cache_bust_mode": "none"}}},
-    "store_batch": {"deltas": True}, "store_single": {"deltas": True},
+    # a store whose batch call fails but whose per-delta calls succeed has done the work: the count of applied
+    # deltas legitimately differs from the do-nothing store; everything else must be equal
+    "store_batch": {"deltas": True, "mask_prefix": "applied"}, "store_single": {"deltas": True, "mask_prefix": "applied"},
     "sidecar": {},
 }
 
@@ -197,8 +199,12 @@ def run_case(case) -> List[Tuple[str, str]]:
                                "ep1→ep2": {"id": "ep1→ep2", "src": "ep1", "dst": "ep2", "weight": 0.6, "rel": "coact", "attrs": {}}},
                      "meta": {"schema": "v1.1", "merges": [], "splits": [], "promotions": [], "concept_nodes_count": 0, "edges_count": 2}}
 
+        wsel = case.get("world", 0)
+        wtext = ["I like apple and banana", "cherry pie and dates, please", ""][wsel]
+
         def mk(name, cfg, faulty):
-            s = Session(os.path.join(work, name), base_cfg=cfg, exc=exc, boot_loaded=not boot)
+            s = Session(os.path.join(work, name), base_cfg=cfg, exc=exc, boot_loaded=not boot, text=wtext,
+                        episodes=(None if wsel != 2 else []))
             s.state["graph"] = copy.deepcopy(gel_graph)
             s.state["gel"] = s.state["graph"]
             if need_deltas:
@@ -296,6 +302,9 @@ def check(run) -> None:
             continue
         for e in (excs if not q else [excs[n % len(excs)], excs[(n + 3) % len(excs)], excs[(n + 5) % len(excs)]]):
             add([s], e)
+            if not q:
+                for w in (1, 2):
+                    cases.append({"sites": [s], "exc": e, "workdir": run.workdir, "world": w})
         n += 1
     if not q:
         k = 0
@@ -306,7 +315,8 @@ def check(run) -> None:
                 if "quality_trace" in (a, b) and ({"fusion", "mmr"} & {a, b}):
                     continue      # shadow tracing requires quality.enabled = false, fusion/MMR require it true
                 k += 1
-                add([a, b], excs[k % len(excs)], "truncated" if "boot_garbage" in (a, b) else None)
+                for j in range(3):
+                    add([a, b], excs[(k + 3 * j) % len(excs)], sorted(GARBAGE)[(k + j) % len(GARBAGE)] if "boot_garbage" in (a, b) else None)
     # attach the spec's predicted record sequence for vectors whose live set matches the model (all on)
     outs = pmap(run_case, cases, chunk=2)
     for c, fails in zip(cases, outs):
